@@ -5,6 +5,7 @@ import (
 	"bytes"
 	"fmt"
 	"io"
+	"net"
 	"net/http"
 	"runtime"
 	"strconv"
@@ -218,6 +219,77 @@ func execFaults(args []string) string {
 		v := hsVerdict(conn, err, cc, peer)
 		if el > 2*time.Second {
 			v += ",late-return"
+		}
+		return v
+	case "hs-client-silent": // faults hs-client-silent <n>: the server takes the request and sends only the first n bytes of its answer, then nothing
+		n, _ := strconv.Atoi(args[1])
+		peer, cc := newPipe()
+		go func() {
+			br := bufio.NewReader(peer)
+			req, err := http.ReadRequest(br)
+			if err != nil {
+				return
+			}
+			resp := []byte("HTTP/1.1 101 Switching Protocols\r\nUpgrade: websocket\r\nConnection: Upgrade\r\nSec-WebSocket-Accept: " +
+				acceptKey(req.Header.Get("Sec-WebSocket-Key")) + "\r\n\r\n")
+			if n > len(resp)-1 {
+				n = len(resp) - 1
+			}
+			if n > 0 {
+				_, _ = peer.Write(resp[:n])
+			}
+		}()
+		t0 := time.Now()
+		conn, _, err := gws.NewClientFromConn(newRecorder(), &gws.ClientOption{Addr: "ws://verif.test/", HandshakeTimeout: 150 * time.Millisecond, Logger: quietLogger{}}, cc)
+		el := time.Since(t0)
+		if err == nil {
+			_ = cc.Close()
+			_ = peer.Close()
+			return "silent-server-handshake-succeeded"
+		}
+		v := hsVerdict(conn, err, cc, peer)
+		if el > 3*time.Second {
+			v += ",late-return"
+		}
+		return v
+	case "hs-client-tcp": // faults hs-client-tcp <ws|wss>: a real TCP server that accepts and never answers (for wss: not even the TLS handshake)
+		ln, err := net.Listen("tcp", "127.0.0.1:0")
+		if err != nil {
+			return "handshake-clean\tno-loopback" // no loopback in this environment: nothing observed
+		}
+		defer ln.Close()
+		accepted := make(chan net.Conn, 1)
+		go func() {
+			c, err := ln.Accept()
+			if err == nil {
+				accepted <- c
+				_, _ = io.Copy(io.Discard, c)
+			}
+		}()
+		type res struct {
+			c   *gws.Conn
+			err error
+		}
+		done := make(chan res, 1)
+		go func() {
+			c, _, err := gws.NewClient(newRecorder(), &gws.ClientOption{Addr: args[1] + "://" + ln.Addr().String() + "/", HandshakeTimeout: 200 * time.Millisecond, Logger: quietLogger{}})
+			done <- res{c, err}
+		}()
+		v := "handshake-clean"
+		select {
+		case r := <-done:
+			if r.err == nil {
+				v = "silent-server-handshake-succeeded"
+			} else if r.c != nil {
+				v = "conn-returned-with-error"
+			}
+		case <-time.After(5 * time.Second):
+			v = "client-handshake-not-bounded-by-its-timeout"
+		}
+		select {
+		case c := <-accepted:
+			_ = c.Close()
+		default:
 		}
 		return v
 	case "hs-server-stall": // the peer sends its request and stops reading: the 101 response hits the handshake time-out
@@ -497,6 +569,11 @@ func genFaults(g *Gen) {
 		}
 	}
 	g.Emit("faults hs-server-stall")
+	for _, n := range []int{0, 1, 12, 40, 1000} {
+		g.Emit("faults hs-client-silent %d", n)
+	}
+	g.Emit("faults hs-client-tcp ws")
+	g.Emit("faults hs-client-tcp wss")
 	for _, api := range []string{"msg", "v", "async", "vasync", "bc"} {
 		g.Emit("faults close-via-write %s", api)
 	}
